@@ -191,7 +191,8 @@ package ipldbindcode
 
 //@ func (DataFrame) Bytes
 //@   mode int
-//@   ensures len(result) == len(n.Data) && ref(result) == ref(n.Data)
+//@   ensures result == n.Data
+//@   ensures len(result) == len(n.Data) && cap(result) == cap(n.Data) && ref(result) == ref(n.Data)
 
 //@ func (DataFrame) HasNext
 //@   mode int
